@@ -45,7 +45,11 @@ chunky_init!(chunky_init_fat, SectorInit::Fat, 0xffu8);
 #[kani::stub(std::fmt::format, stub_format)]
 #[kani::unwind(140)]
 fn chunky_dirent_roundtrip() {
-    let e = any_em(1, 2, false);
+    // concrete entry except the state bits and one time: the subject is the chunking
+    let mut e = em_blank();
+    e.ty = 1; e.nlen = 2; e.name[0] = b'a'; e.name[1] = b'b'; e.color = 1;
+    e.state = kani::any();
+    e.mt = kani::any();
     let d = to_dirent(&e);
     let mut f = ChunkyFile { f: ArrFile::new([0xEEu8; 128], 0), budget: 2 };
     assert!(d.write_to(&mut f).is_ok(), "C18: write_to failed under short writes / Interrupted");
